@@ -164,7 +164,7 @@ def _work(args):
                 "error": "%s: %s\n%s" % (type(e).__name__, e, traceback.format_exc()[-1200:])}
 
 
-def verify(families, kinds, functions=None, tier="quick", jobs=16, skip=()):
+def verify(families, kinds, functions=None, tier="quick", jobs=16, skip=(), match=None):
     """families: list of 'II', 'OO', ...; kinds: analysis ids; functions: None
     = every function definition of BTrees' own sources in the TU that the
     analysis selects (cls.applies)."""
@@ -189,6 +189,9 @@ def verify(families, kinds, functions=None, tier="quick", jobs=16, skip=()):
         for kind in kinds:
             cls = an[kind]
             names = functions if functions is not None else sorted(tu.functions)
+            if match is not None and functions is None:
+                import re as _re
+                names = [x for x in names if _re.search(match, x)]
             for fn in names:
                 if fn not in tu.functions:
                     work.append((fam, kind, fn, timeout, "missing"))
